@@ -98,12 +98,12 @@ class Mirror:
             cr, jr = self.cr(s), self.jr(s)
             if cr >= n:
                 r += n
-                if r == t:
-                    r, t = 0, c
+                if r == t and r > w:
+                    r = 0
                 return self.refresh((w, r, t)), True
             if cr + jr < n:
                 return s, False
-            return self.refresh((w, n - cr, c)), True
+            return self.refresh((w, n - cr, t)), True
         if kind == "f":
             return s, self.readable(s) >= op[1]
         if kind in ("wz", "wd"):
